@@ -755,8 +755,8 @@ func hexToUnicode(hexStr string) (string, error) {
 
 	// Convert to Unicode
 	// Handle UTF-16BE (common in PDFs)
-	if len(data) >= 2 && data[0] == 0xFE && data[1] == 0xFF {
-		// UTF-16BE with BOM
+	if len(data) > 2 && data[0] == 0xFE && data[1] == 0xFF {
+		// UTF-16BE with BOM (a destination that is exactly <FEFF> is the character U+FEFF itself)
 		return decodeUTF16BE(data[2:])
 	}
 
